@@ -14,6 +14,10 @@ T = {
     "T5b": "T5b `&[u8] ==/!= &[u8; N]` compares the byte sequences (axiom_slice_array_eq over vstd's eq_spec)",
     "T13": "T13 machine arithmetic is verified as machine arithmetic (overflow checked by Verus); usize is assumed to be 64 bits (global size_of usize == 8)",
     "T14": "T14 Vec::with_capacity(n) is redirected (rule R-prealloc) to a wrapper that requires n <= number of input bytes present: the resource contract behind C07.prealloc; allocator behaviour for such n is trusted",
+    "T4b": "T4b shim BytesMut (same method names as bytes::BytesMut): with_capacity/is_empty/advance/`&b[..]` over a Seq<u8> view; advance carries its panic condition as a precondition",
+    "T6": "T6 Connection::write_decimal (R-stub-body; `write!` is outside Verus's subset) writes the canonical decimal text of its i64 argument; bounded stand-in: Kani harness on the verbatim body (thorough tier), never counted as proved",
+    "T7": "T7 shim tokio::io::BufWriter<S>: write_u8/write_all append to a ghost output on Ok, flush marks it delivered, read_buf moves a NONDETERMINISTIC non-empty prefix of the ghost incoming stream into the buffer (0 exactly at end of stream); I/O errors possible at every call unless the ghost flag healthy() holds",
+    "T13b": "T13b a slice / Vec of Frame holds at most isize::MAX elements; a Bytes holds at most isize::MAX bytes; every String is valid UTF-8",
     "RW": "the rewrite rules of DESIGN.md section 2.2 preserve the meaning of the extracted text (each application is logged in rewrite_rules_applied)",
     "DERIVE": "derive-generated code (Debug, PartialEq, Eq) and thiserror's Display impls are not verified; the From impls for #[from] fields are regenerated literally",
 }
@@ -28,6 +32,18 @@ PROPS = {
             "stack use is bounded by MAX_DEPTH (32) recursion levels; the size of one stack frame is compiler-determined and trusted",
             "panics inside dependencies under their stated preconditions (bytes, alloc) are excluded by T2-T5, not proved",
             "String::from_utf8_lossy / to_string on the NotInteger error path allocate; allocation failure is out of scope",
+        ],
+    },
+    "C08": {
+        "units": ["resp", "net"],
+        "label_prefixes": ["C08."],
+        "level": "proof",
+        "trusted": ["T1", "T2", "T3", "T4", "T4b", "T5", "T5b", "T6", "T7", "T13", "T13b", "T14", "RW", "DERIVE"],
+        "assumptions": [
+            "C08.write.spec fixes the canonical RESP encoding: a writer changed to a different encoding that still round-trips would be flagged (the wire format is fixed by the protocol)",
+            "equality of decoded and written frames is proved on their views (fview); injectivity of String::as_bytes / Bytes content is T5/T4",
+            "real sockets and tokio's BufWriter implementation are outside (T7); Display for i64 is covered only by T6's bounded stand-in",
+            "in unit net the contracts of frame.rs are assumed (R-stub-body) because they are verified in unit resp, which this check also runs",
         ],
     },
 }
